@@ -47,7 +47,7 @@ def main():
          "setup_cmd": "python3 tools/vcheck.py --setup",
          "hooks": {"guard": "TQFX_LIBA_VERIF",
                    "enable": "no source hook is needed: harnesses compile /repo/src/*.c directly with a generated A_HAVE_H "
-                             "configuration header (all A_HAVE_* on / off, A_SIZE_REAL 8 / 4) and replace the a_alloc "
+                             "configuration header (all A_HAVE_* on / off, A_SIZE_REAL 4 / 8 / 16, A_SIZE_POINTER 8 / 4 / 1, plain char signed / unsigned) and replace the a_alloc "
                              "function pointer at run time",
                    "baseline_off_cmd": "cmake --build /repo/_build && ctest --test-dir /repo/_build -j8 --timeout 900",
                    "source_commits": [], "add_only": True},
